@@ -26,6 +26,21 @@ import (
 	internalfees "github.com/ava-labs/hypersdk/internal/fees"
 )
 
+// reAddMempool re-delivers the transactions a build has just streamed out (as gossip may) before the builder asks for
+// the next batch: the mempool must refuse them while the stream is open, otherwise the builder includes them twice.
+type reAddMempool struct {
+	*mempool.Mempool[*chain.Transaction]
+	on bool
+}
+
+func (m *reAddMempool) Stream(ctx context.Context, count int) []*chain.Transaction {
+	out := m.Mempool.Stream(ctx, count)
+	if m.on && len(out) > 0 {
+		m.Mempool.Add(ctx, out)
+	}
+	return out
+}
+
 // chain index over the blocks of one scenario, for the real TimeValidityWindow
 type buildIndex struct {
 	m map[ids.ID]*chain.ExecutionBlock
@@ -166,7 +181,7 @@ func TestVerifChainBuild(t *testing.T) {
 			cfg.TransactionExecutionCores = []int{1, 2, 4, 16}[r.Intn(4)]
 			cfg.StateFetchConcurrency = 1 + r.Intn(4)
 			cfg.TargetBuildDuration = time.Duration(20+r.Intn(80)) * time.Millisecond
-			builder := chain.NewBuilder(trace.Noop, rf, &logging.NoLog{}, w.mm, w.bh, mp, bwin, metrics, cfg)
+			builder := chain.NewBuilder(trace.Noop, rf, &logging.NoLog{}, w.mm, w.bh, &reAddMempool{Mempool: mp, on: r.Intn(3) == 0}, bwin, metrics, cfg)
 			// mempool content
 			var pool []vTx
 			var poolTxs []*chain.Transaction
